@@ -255,6 +255,15 @@ def wl_reject(ctx, idx, rng):
                                f"third piece {sgn * k:+d} samples off after an undated piece")
     elif kind == "swap":
         expect_refusal(ctx, o, [b, a], feats, ValueError, "pieces in the wrong order")
+        if n >= 4:
+            # four pieces A B C D with equally long inner pieces exchanged: first start, last stop and total length are as in the original
+            w_in = (n - 2) // 2
+            with probes.quiet():
+                A, B, C, D = sig[:1], sig[1:1 + w_in], sig[1 + w_in:1 + 2 * w_in], sig[1 + 2 * w_in:]
+            expect_refusal(ctx, o, [A, C, B, D], dict(feats, pieces=4), ValueError, "inner pieces B and C exchanged (four pieces)")
+            with probes.quiet():
+                Bs = type(B).like(B, start_time=B.start_time + dt)
+            expect_refusal(ctx, o, [A, Bs, C, D], dict(feats, pieces=4, samples=1), ValueError, "inner piece B one sample late (four pieces)")
     elif kind == "duplicate":
         expect_refusal(ctx, o, [a, a, b], feats, ValueError, "duplicated piece (overlap)")
     elif kind == "drop":
@@ -353,6 +362,21 @@ def wl_reject(ctx, idx, rng):
                 seq, w = [hi, lo], "bands in the wrong order"
         if resolvable:
             expect_refusal(ctx, o, seq, dict(feats, channels=k), ValueError, w + " (joined along frequency)", axis=gen.pick(rng, [1, "freq"]))
+        if resolvable and nchan >= 4:
+            # four sub-bands A B C D (B and C equally wide) with only the *inner* ones wrong: the outer band edges are as in the original
+            w_in = (nchan - 2) // 2
+            e0, e1, e2 = 1, 1 + w_in, 1 + 2 * w_in
+            with probes.quiet():
+                A, B, C, D = sig[:, :e0], sig[:, e0:e1], sig[:, e1:e2], sig[:, e2:]
+                if kind == "freq_swap":
+                    seq4, w4 = [A, C, B, D], "inner sub-bands B and C exchanged"
+                else:
+                    sg = 1 if kind == "freq_gap" else -1
+                    kk = min(k, w_in)
+                    B2 = type(B).like(B, center_freq=B.center_freq + sg * kk * B.chan_bw)
+                    seq4, w4 = [A, B2, C, D], f"inner sub-band B moved by {sg * kk:+d} channels"
+            ok4, e4 = ctx.call("roundtrip", pb.concatenate, [A, B, C, D], where="join of four sub-bands", axis="freq")
+            expect_refusal(ctx, o, seq4, dict(feats, channels=k, pieces=4), ValueError, w4 + " (four pieces joined along frequency)", axis=gen.pick(rng, [1, "freq"]))
     elif kind == "other_start_freqaxis":
         with probes.quiet():
             c = int(rng.integers(1, nchan))
